@@ -144,7 +144,7 @@ func (w *c10World) addLocked(x c10Ent) {
 	}
 }
 
-const c10Garbage = 9999 // an element of a batch that is not one of our ints
+const c10Garbage = 99 // an element of a batch that is not one of our ints
 
 func c10Snap(batch EventBatch) []int {
 	out := make([]int, len(batch))
@@ -279,7 +279,7 @@ func c10Run(sc c10Script) []c10Ent {
 	}()
 
 	var producers sync.WaitGroup
-	next := 0
+	next := 10 // event ids of sends start at 11; the start-up batch uses 1..3
 	send := func(e int) {
 		w.add(c10Ent{kind: c10SendStart, e: e})
 		tm := time.NewTimer(c10Wait)
@@ -449,22 +449,22 @@ func TestVerifC10(t *testing.T) {
 
 	// corpus: the three interleavings of loop_test.go, the edge cases, and the mutation-sensitive shapes
 	corpus := []c10Script{
-		{b0: []int{1000}, acts: []c10Act{{c10ARelease, 0}, {c10AQuiesce, 0}, {c10ARelease, 0}, {c10ASend, 0}}, endQuiesce: true},
-		{b0: []int{1000}, acts: []c10Act{{c10ARelease, 0}, {c10AQuiesce, 0}, {c10ASend, 0}, {c10ASend, 0}, {c10ASend, 0}, {c10ARelease, 0}, {c10ARelease, 0}}, endQuiesce: true},
+		{b0: []int{1}, acts: []c10Act{{c10ARelease, 0}, {c10AQuiesce, 0}, {c10ARelease, 0}, {c10ASend, 0}}, endQuiesce: true},
+		{b0: []int{1}, acts: []c10Act{{c10ARelease, 0}, {c10AQuiesce, 0}, {c10ASend, 0}, {c10ASend, 0}, {c10ASend, 0}, {c10ARelease, 0}, {c10ARelease, 0}}, endQuiesce: true},
 		{b0: []int{}, fail: true, acts: []c10Act{{c10ASend, 0}}},
 		{b0: []int{}, cancelFirst: true},
-		{b0: []int{1000, 1001}, cancelFirst: true, acts: []c10Act{{c10ASend, 0}}},
+		{b0: []int{1, 2}, cancelFirst: true, acts: []c10Act{{c10ASend, 0}}},
 		// cancel while a handler is blocked: Start must wait
-		{b0: []int{1000}, acts: []c10Act{{c10ASend, 0}, {c10ACancel, 0}, {c10APause, 300}, {c10ARelease, 0}}},
-		{b0: []int{1000}, acts: []c10Act{{c10ARelease, 0}, {c10AQuiesce, 0}, {c10ASend, 0}, {c10ASend, 0}, {c10ACancel, 0}, {c10APause, 300}}},
+		{b0: []int{1}, acts: []c10Act{{c10ASend, 0}, {c10ACancel, 0}, {c10APause, 300}, {c10ARelease, 0}}},
+		{b0: []int{1}, acts: []c10Act{{c10ARelease, 0}, {c10AQuiesce, 0}, {c10ASend, 0}, {c10ASend, 0}, {c10ACancel, 0}, {c10APause, 300}}},
 		// three swaps: both arrays get reused, with and without spare capacity
-		{b0: []int{1000, 1001, 1002}, spare: 4, acts: []c10Act{{c10ASend, 0}, {c10ARelease, 0}, {c10AQuiesce, 0}, {c10ASend, 0}, {c10AQuiesce, 0}, {c10ASend, 0}, {c10ASend, 0}}, endQuiesce: true},
-		{b0: []int{1000, 1001, 1002}, acts: []c10Act{{c10ASend, 0}, {c10ASend, 0}, {c10AQuiesce, 0}, {c10ASend, 0}, {c10AQuiesce, 0}, {c10ASend, 0}, {c10AQuiesce, 0}, {c10ASend, 0}}, endQuiesce: true},
+		{b0: []int{1, 2, 3}, spare: 4, acts: []c10Act{{c10ASend, 0}, {c10ARelease, 0}, {c10AQuiesce, 0}, {c10ASend, 0}, {c10AQuiesce, 0}, {c10ASend, 0}, {c10ASend, 0}}, endQuiesce: true},
+		{b0: []int{1, 2, 3}, acts: []c10Act{{c10ASend, 0}, {c10ASend, 0}, {c10AQuiesce, 0}, {c10ASend, 0}, {c10AQuiesce, 0}, {c10ASend, 0}, {c10AQuiesce, 0}, {c10ASend, 0}}, endQuiesce: true},
 		// an event that arrives exactly when the handler finishes, then nothing else
-		{b0: []int{1000}, acts: []c10Act{{c10ARace, 0}}, endQuiesce: true},
-		{b0: []int{1000}, acts: []c10Act{{c10ASend, 0}, {c10ARace, 0}, {c10ARace, 0}}, endQuiesce: true},
+		{b0: []int{1}, acts: []c10Act{{c10ARace, 0}}, endQuiesce: true},
+		{b0: []int{1}, acts: []c10Act{{c10ASend, 0}, {c10ARace, 0}, {c10ARace, 0}}, endQuiesce: true},
 		// exactly one event pending when the handler finishes
-		{b0: []int{1000}, acts: []c10Act{{c10ASend, 0}, {c10ARelease, 0}}, endQuiesce: true},
+		{b0: []int{1}, acts: []c10Act{{c10ASend, 0}, {c10ARelease, 0}}, endQuiesce: true},
 	}
 	for _, sc := range corpus {
 		emit("corpus", sc)
@@ -495,7 +495,7 @@ func TestVerifC10(t *testing.T) {
 				continue
 			}
 			r := rng.Fork()
-			sc := c10Script{b0: []int{1000, 1001}, spare: r.Intn(3), endQuiesce: r.Chance(2, 3)}
+			sc := c10Script{b0: []int{1, 2}, spare: r.Intn(3), endQuiesce: r.Chance(2, 3)}
 			for _, a := range wd {
 				sc.acts = append(sc.acts, c10Act{kind: a})
 			}
@@ -510,7 +510,7 @@ func TestVerifC10(t *testing.T) {
 		n := 2 + (i*14)/nRand + r.Intn(3)
 		sc := c10Script{spare: r.Intn(5), hYield: r.Intn(3), endQuiesce: r.Chance(3, 4)}
 		for k, nb := 0, r.Intn(4); k < nb; k++ {
-			sc.b0 = append(sc.b0, 1000+k)
+			sc.b0 = append(sc.b0, 1+k)
 		}
 		if sc.b0 == nil {
 			sc.b0 = []int{}
